@@ -13,6 +13,7 @@ int simk_passthrough;
 int simk_in_probe;
 int simk_log_dec;
 int simk_quiet_io;
+int simk_jump_prob;		/* 1 in N scheduling points: virtual time jumps ~10 s */
 int simk_wait_limit = 1000;
 struct simk_hooks hooks;
 
@@ -138,7 +139,7 @@ int fault_check(const char *call)
 }
 
 /* -------------------------------------------------------------- scheduler */
-#define MAXT 16
+#define MAXT 64
 enum tst { ST_NONE, ST_RUN, ST_LOCK, ST_WAIT, ST_JOIN, ST_DONE };
 struct th {
 	enum tst st;
@@ -148,6 +149,7 @@ struct th {
 	pthread_t pt;
 	int join_target;
 	int detached;
+	int joined;
 };
 static struct th T[MAXT];
 static int nth = 1;
@@ -327,6 +329,15 @@ static void pick_and_wait(void)
 				cand[n++] = i;
 		if (n == 0) {
 			quiescence();
+			continue;
+		}
+		if (simk_jump_prob && !simk_sched_det && (rnd() % simk_jump_prob) == 0) {
+			/* time passes while threads are runnable (e.g. across the
+			 * 10 s idle timeout of a pool thread) */
+			vnow += (rnd() & 1) ? 10 * NSEC : 10 * NSEC + 1;
+			tr("\"e\":\"Env\",\"op\":\"jump\",\"o\":0,\"n\":0,\"now\":[%lld,%lld]}", TS(vnow));
+			tf_fire_due();
+			simk_progress();
 			continue;
 		}
 		nx = -1;
@@ -525,8 +536,9 @@ int __wrap_pthread_create(pthread_t *pt, const pthread_attr_t *a, void *(*fn)(vo
 
 static int tid_of(pthread_t pt)
 {
+	/* pthread_t values are reused after a join: skip joined threads */
 	for (int i = 0; i < nth; i++)
-		if (pthread_equal(T[i].pt, pt))
+		if (!T[i].joined && pthread_equal(T[i].pt, pt))
 			return i;
 	return -1;
 }
@@ -543,6 +555,7 @@ int __wrap_pthread_join(pthread_t pt, void **rv)
 	T[me].join_target = tgt;
 	pick_and_wait();
 	T[me].st = ST_RUN;
+	T[tgt].joined = 1;
 	sync_log("join", tgt);
 	tr("\"e\":\"Join\",\"x\":%d}", tgt);
 	__real_pthread_mutex_unlock(&M);
